@@ -293,6 +293,12 @@ fixed("C15", "C15:text-result-parsed-as-markup", "0d6942b",
       [{"kind": "control-text", "spec": [["caf\x9b", {}], [" au lait", {"bold": True}]], "method": "upper", "args": []},
        {"kind": "control-text", "spec": [["\x1b", {"fg": 31}], ["[1mA ", {"fg": 31}]], "method": "strip", "args": []}])
 
+fixed("C08", "C08:burst-behind-incomplete-keypress-not-a-paste", "8474a00",
+      "the rest of a buffered, cut multi-byte character arriving together with a large burst: the completing read took the "
+      "whole burst along and it came back as single keypresses (left open by e96e5f3 / eb7b570)",
+      [{"kind": "behind-incomplete", "paste_threshold": 8, "pre": B(b"ab".hex()), "char": B("e282ac"), "cut": 2,
+        "burst": B((b"x" * 500).hex())}])
+
 known("C03", "C03:prefix-then-undecodable-byte",
       "get_key raises UnicodeDecodeError for a table-sequence prefix (e.g. ESC) followed by a byte >= 0x80 "
       "that does not decode: ESC + any 8-bit byte under ascii, ESC + a UTF-8 lead/continuation byte under utf-8",
